@@ -168,6 +168,15 @@ func afterWait(w *waitLogic, expect bool) bool {
 	}
 }
 
+// while the Redis behind the store is switched off the tracker-level cases are emitted as fault.* lines: the model
+// has no notion of a failing store, these lines are judged on the implementation's observation alone
+func faultPrefix() string {
+	if rig != nil && rig.down {
+		return "fault."
+	}
+	return ""
+}
+
 func scrapeCounts(ih []byte, v6 bool) string {
 	af := bittorrent.IPv4
 	if v6 {
@@ -299,7 +308,7 @@ func trkHTTPAnnounce(c *Ctx, hc httpCase, tc trkCase) {
 		return fmt.Sprintf("ok c=%v i=%v iv=%v miv=%v n4=%d n6=%d pre=%s post=%s %s", v["complete"], v["incomplete"], v["interval"], v["min interval"],
 			n4, n6, pre, post, finishLogs(tc, lg, true, ran))
 	}()
-	c.Emit(op+" self="+b01(selfOnly), obs)
+	c.Emit(faultPrefix()+op+" self="+b01(selfOnly), obs)
 }
 
 func max32(a, b uint32) uint32 {
@@ -357,7 +366,7 @@ func trkHTTPScrape(c *Ctx, hc httpCase, tc trkCase) {
 		ran := afterWait(wl, true)
 		return "ok body=" + clientDecode(body) + " " + finishLogs(tc, lg, true, ran)
 	}()
-	c.Emit(op, obs)
+	c.Emit(faultPrefix()+op, obs)
 }
 
 func trkUDP(c *Ctx, uc udpCase, tc trkCase) {
@@ -516,7 +525,7 @@ func trkUDP(c *Ctx, uc udpCase, tc trkCase) {
 		}
 		return "dgram=" + hx(d) + " " + finishLogs(tc, lg, handled, ran)
 	}()
-	c.Emit(op+" self="+b01(selfOnly), obs)
+	c.Emit(faultPrefix()+op+" self="+b01(selfOnly), obs)
 }
 
 func replayTracker(c *Ctx, op string, a map[string]string) {
